@@ -107,6 +107,36 @@ def setup():
     def js(req):
         return "x"
 
+    # every table of the debug page has rows: default handlers, status handlers for several methods,
+    # exception handlers, and more before than after hooks
+    @app.default(state.METHOD_PUT | state.METHOD_PATCH)
+    def fallback(req):
+        return "fallback"
+
+    @app.http_state(410, state.METHOD_GET)
+    def gone(req, **kwargs):
+        return "gone", "text/plain", (), 410
+
+    @app.http_state(410, state.METHOD_POST)
+    def gone_post(req, **kwargs):
+        return "gone", "text/plain", (), 410
+
+    @app.error_handler(KeyError)
+    def on_key(req, err):
+        return "key", "text/plain", (), 500
+
+    @app.before_response()
+    def before1(req):
+        pass
+
+    @app.before_response()
+    def before2(req):
+        pass
+
+    @app.after_response()
+    def after1(req, res):
+        return res
+
     _state.update(app=app, root=root)
     return _state
 
